@@ -278,6 +278,7 @@ partial def loop (h : IO.FS.Stream) (hdr : String) (rs : RunState) (tot : Totals
   | [] => loop h hdr rs tot
   | "RUN" :: _ => loop h text {} tot
   | "FAIL" :: _ => loop h hdr rs tot
+  | "START" :: _ => loop h hdr rs tot
   | "CRASH" :: _ => loop h hdr rs tot
   | "CRASHLOG" :: _ => loop h hdr rs tot
   | "END" :: rest =>
